@@ -1,11 +1,11 @@
-(* Dl/BlobOps8.v — L2: histories of ALL operations (insert, delete, upsert, calculate_lazy_hashes, reload,
-   and every batch_insert the plain map rejects): Inv is preserved, the blob represents the L1 tree, the L1
+(* Dl/BlobOps8.v — L2: histories of ALL operations (insert, delete, upsert, batch_insert accepted or
+   rejected, calculate_lazy_hashes, reload): Inv is preserved, the blob represents the L1 tree, the L1
    tree refines the plain map, and the final state is good (content = map, check_integrity = Ok, reload
    equivalent). *)
 From Coq Require Import Permutation.
 From ChiaV.Base Require Import Bytes Sha256.
 From ChiaV.Gen Require Import Dl.
-From ChiaV.Dl Require Import Format Map Tree Blob Abs Inv History Spec FormatProofs MapProofs TreeProofs BlobLemmas BlobOps BlobOps2 BlobOps5 BlobOps6 BlobOps7 BlobHash BlobReload BlobIntegrity.
+From ChiaV.Dl Require Import Format Map Tree Blob Abs Inv History Spec FormatProofs MapProofs TreeProofs BlobLemmas BlobOps BlobOps2 BlobOps5 BlobOps6 BlobOps7 BlobHash BlobReload BlobIntegrity BlobBatch BlobBatch3.
 Open Scope N_scope.
 
 Section All.
@@ -30,31 +30,44 @@ Section All.
     destruct (batch_rejected_step H s ot items Habs Hb') as [e [E1 E2]]. rewrite E1, E2. cbn. repeat split; auto.
   Qed.
 
-  Lemma step_ok_all o s ot m :
-    Abs H s ot -> tree_refines H ot m -> op_in_range o -> room s ->
-    (match o with OBatch items => m_batch items m = None | _ => True end) ->
-    step_ok H o s ot (op_to_top s o).
+  Theorem accepted_batch_step s ot m items m' :
+    Abs H s ot -> tree_refines H ot m -> op_in_range (OBatch items) -> room_for (OBatch items) s ->
+    m_batch items m = Some m' -> step_ok H (OBatch items) s ot (TBatch items).
   Proof.
-    intros Habs HR Hr Hroom Hb. destruct o as [k v h loc|k|k v h|items| |]; cbn [op_to_top].
+    intros Habs [P _] Hrg Hroom Hb. unfold step_ok.
+    assert (Hb' : exists m2, m_batch items (ot_kv ot) = Some m2).
+    { destruct (m_batch items (ot_kv ot)) as [m2|] eqn:E; [eauto|]. exfalso.
+      apply (m_batch_ext items (ot_kv ot) m) in E; [congruence|intros; now apply m_mem_perm|intros; now apply m_has_hash_perm]. }
+    destruct Hb' as [m2 Hb'].
+    destruct (batch_accept_step H Hlen s ot items m2 Habs Hrg Hroom Hb') as [s' [ot' [E1 [E2 HA]]]].
+    cbn [step2 step1]. unfold bind. rewrite E1, E2. cbn. repeat split; auto. discriminate.
+  Qed.
+
+  Lemma step_ok_all o s ot m :
+    Abs H s ot -> tree_refines H ot m -> op_in_range o -> room_for o s -> step_ok H o s ot (op_to_top s o).
+  Proof.
+    intros Habs HR Hr Hroom. destruct o as [k v h loc|k|k v h|items| |]; cbn [op_to_top].
     - now apply insert_step.
     - now apply delete_step.
     - now apply upsert_step.
-    - eapply rejected_batch_step; eauto.
+    - destruct (m_batch items m) as [m'|] eqn:Eb.
+      + eapply accepted_batch_step; eauto.
+      + eapply rejected_batch_step; eauto.
     - now apply hash_step.
     - now apply reload_step.
   Qed.
 
   Theorem history_all : forall ops s ot m,
     Abs H s ot -> tree_refines H ot m ->
-    Forall op_in_range ops -> rooms H ops s -> rejected_batches H ops s m ->
+    Forall op_in_range ops -> rooms H ops s ->
     let '(s', m', fine) := run_joint H ops s m in
     fine = true /\ exists ot', Abs H s' ot' /\ tree_refines H ot' m'.
   Proof.
-    induction ops as [|o r IH]; intros s ot m Habs HR Hrg Hrooms Hrb; cbn [run_joint].
+    induction ops as [|o r IH]; intros s ot m Habs HR Hrg Hrooms; cbn [run_joint].
     - split; [reflexivity|eauto].
     - inversion Hrg as [|? ? Hr Hrg']; subst.
-      cbn [rooms] in Hrooms. destruct Hrooms as [Hroom Hrooms']. cbn [rejected_batches] in Hrb. destruct Hrb as [Hb Hrb']. cbv zeta.
-      pose proof (step_ok_all o s ot m Habs HR Hr Hroom Hb) as Hs. unfold step_ok in Hs.
+      cbn [rooms] in Hrooms. destruct Hrooms as [Hroom Hrooms']. cbv zeta.
+      pose proof (step_ok_all o s ot m Habs HR Hr Hroom) as Hs. unfold step_ok in Hs.
       pose proof (step_refines H (Hne_of_len H Hlen) (op_to_top s o) ot m HR) as Hl.
       destruct (step2 H o s) as [x s'] eqn:E2. destruct (step1 H (op_to_top s o) ot) as [ok1 ot1].
       destruct (step0 (op_to_top s o) m) as [ok0 m0].
@@ -75,13 +88,13 @@ Section All.
 
   (* the end-to-end statement *)
   Theorem blob_history_good ops :
-    Forall op_in_range ops -> rooms H ops empty_blob -> rejected_batches H ops empty_blob [] ->
+    Forall op_in_range ops -> rooms H ops empty_blob ->
     let '(s', m', fine) := run_joint H ops empty_blob [] in
     fine = true /\ Inv H s' /\ good_state H s' m' /\
     exists ot', Abs H s' ot' /\ abs s' = Some ot' /\ tree_refines H ot' m'.
   Proof.
-    intros Hr Hro Hrb.
-    pose proof (history_all ops empty_blob None [] (or_introl (conj eq_refl eq_refl)) (R_empty H) Hr Hro Hrb) as Hh.
+    intros Hr Hro.
+    pose proof (history_all ops empty_blob None [] (or_introl (conj eq_refl eq_refl)) (R_empty H) Hr Hro) as Hh.
     destruct (run_joint H ops empty_blob []) as [[s' m'] fine]. destruct Hh as [Hf [ot' [HA HR]]].
     destruct (Abs_good s' ot' m' HA HR) as [HI Hg].
     split; [exact Hf|]. split; [exact HI|]. split; [exact Hg|]. exists ot'. split; [exact HA|]. split; [|exact HR].
